@@ -1305,9 +1305,11 @@ class CSym(object):
         cands = [e for e in self.events if e.kind == "w" and e.arr is p.arr]
         if not cands:
             return None
-        cur_q = [q[0] for q in self.qvars]
+        is_tid = lambda v: v.op == "v" and v.args[0].startswith("tid#")
+        cur_q = [q[0] for q in self.qvars if not (p.arr.private and is_tid(q[0]))]
         for e in reversed(cands):
-            eq_ = [q[0] for q in e.qvars]
+            # a per-thread scratch array is addressed by every thread in its own copy: the thread index is not a coordinate of it
+            eq_ = [q[0] for q in e.qvars if not (p.arr.private and is_tid(q[0]))]
             if eq_ == cur_q[:len(eq_)] and len(eq_) <= len(cur_q):
                 # written in this very iteration context (same enclosing generic iterations)
                 if self.same_index(e.idx, p.off):
